@@ -239,8 +239,13 @@ def state(q):
 def new_session(q):
     """a new Settings object in this process (what `import qexpy` does once per session)"""
     import qexpy.settings.settings as S
+    old = q.get_settings()
     setattr(S.Settings, "_Settings__instance", None)
-    return q.get_settings()
+    new = q.get_settings()
+    if new is old:
+        # the singleton is kept somewhere else than the harness knows: fall back to the public reset
+        q.reset_default_configuration()
+    return new
 
 
 _FRESH = {}
